@@ -328,7 +328,8 @@ class Scenario:
             with open(os.path.join(d, "xor.dat"), "wb") as fh:
                 fh.write(self.xorkey)
         lines = "\n".join("%s %s" % (hx(k), hx(v)) for k, v in self.kvs) + "\n"
-        C.run([C.IMPL, "verif-hook", "mkindex", os.path.join(d, "index")], input=lines, check=True)
+        C.run([C.IMPL, "verif-hook", "mkindex", os.path.join(d, "index")], input=lines, check=True,
+              env=({"RBP_MKINDEX_WRITE_BUFFER": str(self.index_write_buffer)} if getattr(self, "index_write_buffer", None) else None))
 
     def run_impl(self, datadir=None, dump=None, keep=False, env=None, preexec=None, wrapper=None, timeout=60):
         own = datadir is None
